@@ -224,6 +224,23 @@ CHECKS = {
                   "only). No axioms.",
         technique="Rocq proofs over Q (induction on the sample list, lra/nra) + correspondence (vm_compute) + geometric oracle on the code",
         ref="§C12"),
+    "C10": dict(
+        text="PARTIAL. Proved over the reals for the closed-form shapes of geometry/tracer.py at every parameter: C10_arc_start, "
+             "C10_arc_end (end point misses the target by exactly the difference of the radii) / C10_arc_end_exact, "
+             "C10_arc_const_radius, C10_arc_sweep (monotone in the selected direction, sweep in (0, 2pi], congruent to the angle "
+             "start->target), C10_arc_z_linear, C10_circle_full_turn, C10_arcR_equidistant and C10_arcR_minor_major (sign of the "
+             "radius selects minor/major arc in either direction), C10_helix_ends / _radius (linear) / _turns / _monotone, "
+             "C10_spiral_radius, C10_thread_radius (constant), C10_vertex_exact (polyline vertices, exact rationals). Tie: for every "
+             "generated closed-form request, emitted vertices of the real tracer are placed on the curve of model/TracerR.v by "
+             "kernel-checked interval arithmetic (1e-9 relative); independent binary64 oracle for start/contiguity/on-curve/"
+             "monotone/sweep/turns/z/end; spline: oracle only (within one resolution of every control point, in order).",
+        note=TB + "Partial: scipy CubicSpline not modelled (oracle search only); binary64 evaluation of cos/sin/arctan2/hypot tied "
+                  "by certified samples, not proved. Axioms (standard library reals, reported by Print Assumptions): "
+                  "ClassicalDedekindReals.sig_not_dec, ClassicalDedekindReals.sig_forall_dec, "
+                  "FunctionalExtensionality.functional_extensionality_dep, Classical_Prop.classic. The Interval tactic is used only "
+                  "in the per-run correspondence files, its results are kernel-checked.",
+        technique="Rocq proofs over R (atan2 from atan, polar lemma, periodicity) + interval-certified correspondence samples + geometric oracle on the code",
+        ref="§C10"),
 }
 
 PENDING_REASON = "check not built yet in this session (work in progress; see DESIGN.md §10 for the order)"
